@@ -124,10 +124,39 @@ def pair_configs(thorough=True):
         out.append({'actions': [a, b], 'others': True})
     for a in MAIN:
         for b in OTHER:
+            if a == 'lost' and not thorough:
+                continue    # quick: loss + action on the other namespace only modulo independence (nested_configs)
             out.append({'actions': [a, b], 'others': False})
             if thorough:    # (a second client in '/' changes nothing for an action on '/b')
                 out.append({'actions': [a, b], 'others': True})
     return out
+
+
+SAME_NS_PAIRS = (('api', 'api'), ('api', 'client'), ('client', 'client'))
+
+
+def nested_configs():
+    """pre-emption ALSO at the manager's calls to its own methods (inside manager.disconnect: basic_disconnect,
+    basic_leave_room per room; inside can_disconnect: is_connected) while the run is gate-serial.
+    -> (exhaustive configs, configs explored modulo declared independence)"""
+    full = [{'actions': [a, b], 'others': o, 'nested': True} for a, b in SAME_NS_PAIRS for o in (False, True)]
+    reduced = [{'actions': [a, 'lost'], 'others': o, 'nested': True} for a in ('api', 'client') for o in (False, True)]
+    reduced += [{'actions': [a, b], 'others': False, 'nested': True} for a in MAIN for b in OTHER]
+    return full, reduced
+
+
+def nested_triple_configs():
+    out = []
+    for tr in itertools.combinations_with_replacement(MAIN, 3):
+        if tr.count('lost') > 1:
+            continue
+        out.append({'actions': list(tr), 'others': False, 'nested': True})
+    return out
+
+
+def cfg_key(cfg, reduced=False):
+    return '+'.join(cfg['actions']) + ('/shared-ns' if cfg['others'] else '') + \
+        ('/nested' if cfg.get('nested') else '') + ('/reduced' if reduced else '')
 
 
 def triple_configs():
@@ -148,7 +177,7 @@ def judge(ctx, cfg, obs, m, stats, reduced):
            'model': {k: m[k] for k in ('calls', 'raised', 'contained', 'residue', 'serial', 'pcs')},
            'oracle': [f[1] for f in fails], 'correspondence': diffs}
     stats['runs'] += 1
-    ctx.count('actions:' + '+'.join(cfg['actions']) + ('/shared-ns' if cfg['others'] else ''))
+    ctx.count('actions:' + cfg_key(cfg, reduced))
     if obs['overlap']:
         stats['overlap'] += 1
         if not diffs:
@@ -183,8 +212,11 @@ def run_configs(ctx, cfgs, stats, indep=None, budget=None):
     for cfg in cfgs:
         obs_all = list(t.explore(cfg, indep=indep))
         ans = C.batch('sched', [t.model_line(o) for o in obs_all])
-        key = '+'.join(cfg['actions']) + ('/shared-ns' if cfg['others'] else '')
+        key = cfg_key(cfg, indep is not None)
         stats['per_config'][key] = len(obs_all)
+        if cfg.get('nested'):
+            stats['nested_runs'] += len(obs_all)
+            stats['nested_serial'] += sum(1 for o in obs_all if not o['overlap'])
         stats['outcomes'][key] = set(outcome_sig(o) for o in obs_all)
         for o, m in zip(obs_all, ans):
             fails, diffs = judge(ctx, cfg, o, m, stats, indep is not None)
@@ -207,8 +239,16 @@ def run(ctx):
     ])
     C.build_driver('sched')
     stats = {'runs': 0, 'serial': 0, 'overlap': 0, 'overlap_failing': 0, 'overlap_model_agrees': 0, 'shapes': {},
-             'example': None, 'per_config': {}, 'nontrivial': set(), 'samples': [], 'outcomes': {}}
+             'example': None, 'per_config': {}, 'nontrivial': set(), 'samples': [], 'outcomes': {},
+             'nested_runs': 0, 'nested_serial': 0}
     run_configs(ctx, pair_configs(ctx.thorough), stats)
+    pairs = stats['runs']
+    # nested pre-emption (inside manager.disconnect / can_disconnect)
+    t = T()
+    nfull, nred = nested_configs()
+    run_configs(ctx, nfull, stats)
+    run_configs(ctx, nred, stats, indep=t.independent)
+    nested_pairs = stats['runs'] - pairs
     pairs = stats['runs']
     exhaustive3 = None
     if ctx.thorough:
@@ -223,8 +263,14 @@ def run(ctx):
                 raise C.Infra('sleep-set reduction is not outcome-preserving on %s: %d vs %d outcomes (the declared '
                               'independence relation is wrong)' % (key, len(reduced), len(stats['outcomes'][key])))
             checked += 1
+        for cfg in nfull:
+            reduced = set(outcome_sig(o) for o in t.explore(cfg, indep=t.independent))
+            if reduced != stats['outcomes'][cfg_key(cfg)]:
+                raise C.Infra('sleep-set reduction is not outcome-preserving on %s' % cfg_key(cfg))
+            checked += 1
         ctx.coverage['independence_cross_validated_on_pair_configs'] = checked
         run_configs(ctx, triple_configs(), stats, indep=t.independent)
+        run_configs(ctx, nested_triple_configs(), stats, indep=t.independent)
         exhaustive3 = stats['runs'] - pairs
         ctx.assumptions.append(
             'three-action enumeration: complete modulo commutation of accesses declared independent in '
@@ -234,10 +280,19 @@ def run(ctx):
     cov['evaluations'] = stats['runs']
     cov['exhaustive'] = True
     cov['exhaustive_scope'] = ('every interleaving of every pair of terminating actions from {disconnect(), client DISCONNECT, '
-                               'transport loss, disconnect()/DISCONNECT of the other namespace of the transport} (sole member of '
+                               'transport loss, disconnect()/DISCONNECT of the other namespace of the transport}' +
+                               ('' if ctx.thorough else ' except {transport loss, action on the other namespace}, which the quick tier '
+                                'explores modulo declared independence,') + ' (sole member of '
                                'the namespace / namespace shared with another client), pre-emption before every manager / '
                                'transport / handler access' + ('; every triple modulo declared independence' if ctx.thorough else ''))
     cov['pair_schedules'] = pairs
+    cov['nested_preemption_schedules'] = stats['nested_runs']
+    cov['nested_preemption_gate_serial'] = stats['nested_serial']
+    cov['nested_preemption_scope'] = (
+        'pre-emption also at the manager\'s calls to its own methods (basic_disconnect, basic_leave_room per room, '
+        'is_connected inside can_disconnect) for as long as the run is gate-serial: exhaustive for the pairs of actions on one '
+        'namespace (disconnect()/DISCONNECT, both orders, sole member / shared namespace); pairs with a transport loss or with '
+        'an action on the other namespace modulo the declared independence')
     if exhaustive3 is not None:
         cov['triple_schedules_modulo_independence'] = exhaustive3
     cov['gate_serial_schedules'] = stats['serial']
